@@ -1,6 +1,9 @@
 #!/bin/sh
 # usage: tools_mut.sh <Cxx> <file-rel-to-/repo> <sed-expr>   — apply a one-line mutation, run the check, revert
+# refuses to run when /repo has uncommitted changes (so a pending fix can never be lost)
 set -u
-cd /repo && sed -i "$3" "$2" && git diff --stat | tail -1
+cd /repo
+if [ -n "$(git status --porcelain --untracked-files=no)" ]; then echo "tools_mut: /repo has uncommitted changes; commit or stash first"; exit 3; fi
+sed -i "$3" "$2" && git diff --stat | tail -1
 cd /verif && ./check "$1"; echo "exit=$?"
-cd /repo && git checkout -- .
+cd /repo && git checkout -- "$2"
